@@ -140,6 +140,10 @@ FIXED = [
 ]
 
 
+# positions (besides the last one) that are always queried, also in the quick tier
+EXTRA_POSITIONS = {"comprehension-self": [(1, 6)]}
+
+
 # ------------------------------------------------------------------ random definition graphs
 
 EDGE_KINDS = ['assign', 'call', 'inherit', 'attr', 'container', 'either', 'default', 'decorate',
